@@ -214,7 +214,9 @@ def run(ctx):
         scripted(ctx, "kill-two-workers", case, paths, cores, bs, kills, sampled_runs(rng, paths, cores, bs, kills, 1, budget), budget)
     # ---- (b) real processes ---------------------------------------------------------------------
     plan = [(2, 2, 7, 0, "record", "exit9"), (2, 2, 7, 3, "record", "kill9"), (2, 2, 7, 2, "sentinel", "kill9"), (2, 2, 7, 6, "record", "exit9"),
-            (2, 2, 7, 5, "sentinel", "raise"), (3, 1, 5, 4, "sentinel", "segv")]
+            (2, 2, 7, 5, "sentinel", "raise"), (3, 1, 5, 4, "sentinel", "segv"),
+            # a Python-level crash INSIDE wfa_alignment while a result is handed over (added after seeded change C13/2: sentinel sent from a finally block)
+            (2, 2, 7, 3, "record", "raise"), (2, 3, 7, 1, "record", "raise")]
     if not quick:
         plan += [(2, 2, 7, K, pt, md) for K in range(7) for pt in ("record", "sentinel") for md in ("kill9", "raise")]
         plan += [(3, 1, 5, K, pt, "exit9") for K in range(5) for pt in ("record", "sentinel")] + [(1, 3, 5, 1, "record", "kill9"), (1, 3, 5, 4, "sentinel", "segv"), (4, 1, 6, 2, "record", "segv")]
